@@ -60,11 +60,17 @@ CHECKS = {
                  "compared with GetStatus of every transaction after every block; accepted receipt without an edge, rejected "
                  "receipt that had an edge and the next index, and record bytes changing without event are violations. "
                  "Non-trivial = a transaction reached a final state and received a further event, or a receipt landed in the "
-                 "expiry block; distinct = hash of the operation history."),
-        "assumptions": ["inter-BitXHub notices (signed BEGIN_FAILURE/BEGIN_ROLLBACK from a destination hub) are exercised by the C03 check, not here",
-                        "all proofs are valid here (HappyRule); proof handling is C03"],
-        "quick": [T("TestC04", 8, 150, steps=30)],
-        "thorough": [T("TestC04", 16, 1200, steps=45, timeout=3000)],
+                 "expiry block; distinct = hash of the operation history. TestC04InterHub: the same state machine between two "
+                 "BitXHubs (proof world, remote hub 1357 with 4 validators): requests of a local service to the remote hub and "
+                 "multi-signed requests from it (T in 0,2,3,5; next and skipped indices), multi-signed receipts (success/failure/"
+                 "rollback, too few signatures) and receipts of the local chain, begin-failure / begin-rollback notices of the "
+                 "destination hub, empty blocks, restart; oracle: statement's transitions incl. the notice edges BEGIN->FAILURE and "
+                 "BEGIN->ROLLBACK, expiry at H+T in both directions, final statuses and untouched records unchanged, counters == "
+                 "accepted events. Non-trivial there = an accepted notice, or an event for a transaction in a final status."),
+        "assumptions": ["a multi-signed RECEIPT_ROLLBACK for an outgoing transaction in BEGIN may be accepted (as the destination hub's rollback notice) or refused",
+                        "all local proofs are valid here (HappyRule); proof handling is C03"],
+        "quick": [T("TestC04", 8, 150, steps=30), T("TestC04InterHub", 8, 100, steps=30)],
+        "thorough": [T("TestC04", 16, 1200, steps=45, timeout=3000), T("TestC04InterHub", 16, 1500, steps=40, timeout=3000)],
     },
     "C06": {
         "level": "exploration",
